@@ -929,6 +929,20 @@ tc_generate(const char *path, int kind, tc_mut m)
         a = ANcreatef(A, AN_FILE_DESC);
         ANwriteann(a, "a longer description of this file\nwith two lines", 48);
         ANendaccess(a);
+        /* the numbers of file labels and file descriptions differ (in both directions over the kinds) */
+        if (kind == 4) {
+            a = ANcreatef(A, AN_FILE_DESC);
+            ANwriteann(a, "second file description", 23);
+            ANendaccess(a);
+            a = ANcreatef(A, AN_FILE_DESC);
+            ANwriteann(a, "third one", 9);
+            ANendaccess(a);
+        }
+        else {
+            a = ANcreatef(A, AN_FILE_LABEL);
+            ANwriteann(a, "another file label", 18);
+            ANendaccess(a);
+        }
         if (sdsref[first] > 0) {
             a = ANcreate(A, DFTAG_NDG, (uint16)sdsref[first], AN_DATA_LABEL);
             ANwriteann(a, "label of the first data set", 27);
